@@ -107,6 +107,10 @@ def gen_tags(rng, n, tier):
             want[z] -= 1
             cases.append({"len": l, "seed": seed})
     cases.append({"len": 300_000 if tier == "quick" else 3_000_000 + rng.randrange(5000), "seed": rng.randrange(1 << 30)})
+    # the processed entry may be a symbolic link to the file (the digest is that of the content it leads to), in the
+    # same directory or elsewhere
+    for l in (0, 1, 7, 200, cs + 1, 5000):
+        cases.append({"len": l, "seed": rng.randrange(1 << 30), "via": rng.choice(["link", "link-far"])})
     while len(cases) < n:
         cases.append({"len": rng.choice([rng.randint(0, 64), rng.randint(0, 3 * cs + 10), max(0, rng.randint(cs - 3, cs + 3))]),
                       "seed": rng.randrange(1 << 30)})
@@ -121,7 +125,15 @@ def impl_tags(case):
         p.write_bytes(data)
         os.utime(p, ns=(1_000_000_000, 1_000_000_000))
         st0 = os.stat(p)
-        f = File(root, Path("f.bin"))
+        name = "f.bin"
+        if case.get("via") == "link":
+            os.symlink("f.bin", root / "l")
+            name = "l"
+        elif case.get("via") == "link-far":
+            (root / "elsewhere" / "deep").mkdir(parents=True)
+            os.symlink("../../f.bin", root / "elsewhere" / "deep" / "a-link-with-a-long-name.bin")
+            name = "elsewhere/deep/a-link-with-a-long-name.bin"
+        f = File(root, Path(name))
         out = {}
         for a in ALGOS:
             tag = registry().get_tag_factory(QualifiedTagName(a))()
